@@ -32,8 +32,8 @@ const c14Rac = "lib/rac"
 
 func init() {
 	register("C14", core.Spec{
-		Decides: "structural necessary conditions of C14 only, for every call sequence and schedule: (K.spawn, K.unbuffered, K.ack) the stop/ack handshake of the concurrent reader is sent once per spawned goroutine over unbuffered channels and every goroutine acknowledges before it returns or goes on; (K.cancel.*) on a cancel the Manager and every Worker re-assign their select-state variables to the values they had before the loop and a Worker keeps the buffer of an unsent work; (K.roi) concReader.seek un-resolves the seek whenever it changes a field that Read sends as the region of interest; (K.errkey, K.errpos, K.recheck) an error-only unit of work carries the position at which Read will look it up and Read re-examines a newly fetched work before touching its buffer; (K.intersect) work ranges are chunk ranges intersected with the region of interest; (Q.*) in the single-goroutine Reader every successful seek installs the new high limit, a seek that moves the cursor resets the chunk cursor to state A after SeekToChunkContaining succeeded, and Read clamps its buffer to the limit",
-		NotDecided: "the property as a whole: equality of positions, byte counts, bytes and EOF behaviour with an in-memory reader (value-level: chunk cursor arithmetic, findChunkContaining), and deadlock freedom, absence of goroutine leaks and absence of data races under all schedules (needs an interleaving model). Passing these rules does not show that the protocol is correct; violating any one of them breaks it",
+		Decides:     "structural necessary conditions of C14 only, for every call sequence and schedule: (K.spawn, K.unbuffered, K.ack) the stop/ack handshake of the concurrent reader is sent once per spawned goroutine over unbuffered channels and every goroutine acknowledges before it returns or goes on; (K.cancel.*) on a cancel the Manager and every Worker re-assign their select-state variables to the values they had before the loop and a Worker keeps the buffer of an unsent work; (K.roi) concReader.seek un-resolves the seek whenever it changes a field that Read sends as the region of interest; (K.errkey, K.errpos, K.recheck) an error-only unit of work carries the position at which Read will look it up and Read re-examines a newly fetched work before touching its buffer; (K.intersect) work ranges are chunk ranges intersected with the region of interest; (Q.*) in the single-goroutine Reader every successful seek installs the new high limit, a seek that moves the cursor resets the chunk cursor to state A after SeekToChunkContaining succeeded, and Read clamps its buffer to the limit",
+		NotDecided:  "the property as a whole: equality of positions, byte counts, bytes and EOF behaviour with an in-memory reader (value-level: chunk cursor arithmetic, findChunkContaining), and deadlock freedom, absence of goroutine leaks and absence of data races under all schedules (needs an interleaving model). Passing these rules does not show that the protocol is correct; violating any one of them breaks it",
 		Assumptions: []string{"go/types, go/cfg (x/tools v0.29.0); go/cfg's select lowering (comm statements evaluated before the clause bodies)", "the goroutine bodies are runRWorker and runRManager with one labelled select loop each; any other shape is reported as undecided"},
 	}, runC14)
 }
@@ -1611,7 +1611,7 @@ func (x *c14x) cursor() {
 				conc := x.field("Reader", "concReader")
 				first := loop.Body.List[0]
 				k.mustPass("Q.clamp", anchor, claim, fl, core.Query{
-					Exit: func(n ast.Node) bool { return n.Pos() >= first.Pos() && n.End() <= loop.End() },
+					Exit:   func(n ast.Node) bool { return n.Pos() >= first.Pos() && n.End() <= loop.End() },
 					Events: []core.Event{{Node: func(n ast.Node) bool { return n == ast.Node(guard.Cond) }}},
 					Exempt: func(cond ast.Expr, ci *core.CondInfo, taken bool) bool {
 						call, ok := ast.Unparen(cond).(*ast.CallExpr)
